@@ -202,50 +202,80 @@ def run_paired(jobs, wd, name, shards=None, timeout=3000):
     return outs
 
 
-def validate_pairs(files, wd, name, timeout=3000):
-    """TLC judges every recorded pair (P_C07!PairErr).
-    Returns (stats, errs, notes, index) with index: trace line number -> identity of the pair on that line."""
-    trace = os.path.join(wd, name + ".pairs.all.ndjson")
+def validate_pairs(files, wd, name, timeout=1500):
+    """TLC judges every recorded pair (P_C07!PairErr).  The trace is cut into chunks (each one TLC run of a few
+    minutes at most; up to 4 at a time).
+    Returns (stats, errs, notes, index) with index: global line number -> identity of the pair on that line."""
     stats = {"pairs": 0, "cases": 0, "points": 0, "points_used": 0, "ticks": 0, "cbticks": 0, "problems": 0}
     index = {}
-    with open(trace, "w") as g:
-        ln = 0
-        for f in files:
-            for line in open(f):
-                r = json.loads(line)
-                if r["e"] == "end":
-                    continue
-                ln += 1
-                g.write(line)
-                if r["e"] == "case":
-                    stats["cases"] += 1
-                    stats["points"] += r["points"]
-                    stats["points_used"] += r["used"]
-                    stats["ticks"] += r["ticks"]
-                    stats["cbticks"] += r["cbticks"]
-                    if r["problem"]:
-                        stats["problems"] += 1
-                elif r["e"] == "pair":
-                    stats["pairs"] += 1
-                    index[ln] = {"job": r["job"], "cut": r["cut"], "K": r["K"], "cont": r["cont"], "mode": r["mode"],
-                                 "pre": r["pre"], "guards": r.get("guards", {})}
+    chunks = []            # (path, first global line - 1)
+    g, ln, size, cl = None, 0, 0, 0
+    for f in files:
+        for line in open(f):
+            r = json.loads(line)
+            if r["e"] == "end":
+                continue
+            if g is None or size > 40_000_000 or cl >= 15000:
+                if g is not None:
+                    g.write('{"e":"end"}\n')
+                    g.close()
+                path = os.path.join(wd, "%s.pairs.c%d.ndjson" % (name, len(chunks)))
+                chunks.append((path, ln))
+                g, size, cl = open(path, "w"), 0, 0
+            ln += 1
+            cl += 1
+            size += len(line)
+            g.write(line)
+            if r["e"] == "case":
+                stats["cases"] += 1
+                stats["points"] += r["points"]
+                stats["points_used"] += r["used"]
+                stats["ticks"] += r["ticks"]
+                stats["cbticks"] += r["cbticks"]
+                if r["problem"]:
+                    stats["problems"] += 1
+            elif r["e"] == "pair":
+                stats["pairs"] += 1
+                index[ln] = {"job": r["job"], "cut": r["cut"], "K": r["K"], "cont": r["cont"], "mode": r["mode"],
+                             "pre": r["pre"], "guards": r.get("guards", {})}
+    if g is not None:
         g.write('{"e":"end"}\n')
+        g.close()
     mod = "C07PairTrace"
-    twd = os.path.join(wd, "tlc_" + name)       # concurrent validations: one TLC directory each
-    os.makedirs(twd, exist_ok=True)
-    with open(os.path.join(twd, mod + ".cfg"), "w") as f:
-        f.write(PAIR_CFG)
-    outp = os.path.join(twd, mod + "." + name + ".out")
-    r = run_tlc(twd, mod, workers=1, timeout=timeout, heap="6g", deque=True,
-                env_extra={"TRACE": os.path.abspath(trace)}, stdout_path=outp)
-    txt = open(outp, errors="replace").read()
-    if r["rc"] != 0 or "Model checking completed. No error" not in txt:
-        raise ToolError("pair validation did not consume %s (rc=%s): %s" % (trace, r["rc"], r["error"] or txt[-1500:]))
-    ef, nf = outp + ".verr", outp + ".pnote"
-    extract_prints(outp, "VERR", ef)
-    extract_prints(outp, "PNOTE", nf)
-    errs = [json.loads(x) for x in open(ef) if x.strip()]
-    notes = [json.loads(x) for x in open(nf) if x.strip()]
+    errs, notes, problems = [], [], []
+    sem = threading.Semaphore(4)
+
+    def one(ci, path, off):
+        with sem:
+            try:
+                twd = os.path.join(wd, "tlc_%s_%d" % (name, ci))       # concurrent validations: one TLC directory each
+                os.makedirs(twd, exist_ok=True)
+                with open(os.path.join(twd, mod + ".cfg"), "w") as f:
+                    f.write(PAIR_CFG)
+                outp = os.path.join(twd, mod + ".out")
+                r = run_tlc(twd, mod, workers=1, timeout=timeout, heap="4g", deque=True,
+                            env_extra={"TRACE": os.path.abspath(path)}, stdout_path=outp)
+                txt = open(outp, errors="replace").read()
+                if r["rc"] != 0 or "Model checking completed. No error" not in txt:
+                    raise ToolError("pair validation did not consume %s (rc=%s): %s" % (path, r["rc"], r["error"] or txt[-1500:]))
+                for tag, dest in (("VERR", errs), ("PNOTE", notes)):
+                    ef = outp + "." + tag.lower()
+                    extract_prints(outp, tag, ef)
+                    for x in open(ef):
+                        if x.strip():
+                            d = json.loads(x)
+                            d["line"] += off
+                            dest.append(d)
+            except Exception as ex:
+                problems.append(ex)
+    ths = [threading.Thread(target=one, args=(ci, p, off)) for ci, (p, off) in enumerate(chunks)]
+    for t in ths:
+        t.start()
+    for t in ths:
+        t.join()
+    if problems:
+        raise problems[0]
+    errs.sort(key=lambda e: e["line"])
     return stats, errs, notes, index
 
 
